@@ -525,6 +525,46 @@ func c08raceBody() {
 	sched.SetOutcome("ok")
 }
 
+// (S): the controller's event loop is far behind: it only starts after the store produced more events than the
+// event queue holds (32), all of them order sensitive (endpoint b replaces a, a replaces b, ...; in one variant
+// the service is also removed and re-added near the end). Whatever the relative speeds, once everything is
+// processed the running processors equal what the history implies.
+func c08slowControllerBody() {
+	seq := []c08op{{Kind: "dep+", Svc: "s1"}, {Kind: "cfg", Svc: "s1", Cfg: "v1"}, {Kind: "ep", Svc: "s1", Added: "a"}}
+	n := 32 + sched.Choose(sched.ClsInput, 3, "events beyond the queue capacity")
+	for i := 0; i < n; i++ {
+		if i%2 == 0 {
+			seq = append(seq, c08op{Kind: "ep", Svc: "s1", Added: "b", Removed: "a"})
+		} else {
+			seq = append(seq, c08op{Kind: "ep", Svc: "s1", Added: "a", Removed: "b"})
+		}
+	}
+	variant := sched.Choose(sched.ClsInput, 3, "tail")
+	switch variant {
+	case 1:
+		seq = append(seq, c08op{Kind: "cfg", Svc: "s1", Cfg: "v2"}, c08op{Kind: "cfg", Svc: "s1", Cfg: "v1"})
+	case 2:
+		seq = append(seq, c08op{Kind: "dep-", Svc: "s1"}, c08op{Kind: "dep+", Svc: "s1"}, c08op{Kind: "cfg", Svc: "s1", Cfg: "v2"}, c08op{Kind: "ep", Svc: "s1", Added: "b"})
+	}
+	w := c08setup(false)
+	m := c08model{}
+	var last c08op
+	sched.GoNamed("updater", func() {
+		for _, o := range seq {
+			w.feed(o)
+			m.apply(o)
+			last = o
+		}
+	})
+	sched.WaitQuiescent() // the store is blocked on (or past) the full queue
+	w.ctl.Start()
+	sched.WaitQuiescent()
+	if s, d := w.judge(m, false, last); s != "" {
+		sched.Fail(s+" / controller behind by more than the queue holds", fmt.Sprintf("%d endpoint swaps, tail variant %d: %s", n, variant, d))
+	}
+	sched.SetOutcome(fmt.Sprintf("n=%d tail=%d", n, variant))
+}
+
 // (S): the three discovery streams are three goroutines in the product; their handlers race with each other
 // and with the controller loop. The oracle is order independent: once everything is processed the running
 // processors are exactly what the store's final table implies.
@@ -606,6 +646,13 @@ func init() {
 			return nil
 		}
 		return []sched.Failure{{Sig: sig, Detail: detail}}
+	}})
+	sched.Register(&sched.Scenario{Name: "C08/slow-controller", Setup: func(tier string) (sched.Config, func()) {
+		b := sched.Bounds{P: 1, F: 1, Sel: 1}
+		if tier == "thorough" {
+			b = sched.Bounds{P: 2, F: 1, Sel: 1}
+		}
+		return sched.Config{Bounds: b, Iterative: true, MaxSteps: 100000}, c08slowControllerBody
 	}})
 	sched.Register(&sched.Scenario{Name: "C08/race", Setup: func(tier string) (sched.Config, func()) {
 		b := sched.Bounds{P: 2, F: 2, Sel: 1}
